@@ -294,7 +294,6 @@ PossibleCrds(inp)  == {CrdOrder(inp, DepsAfterProcess(inp, o)) : o \in SetToSeqs
 
 KnownNotesShape(inp)  == Cardinality(NotesPassing(inp)) >= 2                                     \* L8-notes
 KnownCrdsShape(inp)   == inp.decl = "none" /\ Cardinality(Range(inp.subs) \cap Range(inp.crds)) >= 2  \* L21
-KnownFilesShape(inp)  == ProgsUsed(inp) \cap {"FCFG", "FSEC"} # {}                              \* L22: AsConfig / AsSecrets
 KnownSchemaShape(inp) == inp.schema \in {"rel", "file"}                                          \* L8-schema
 
 (* ----- C08 as predicates on (input, id sequences) -- not via F -------------- *)
